@@ -79,7 +79,12 @@ Definition fun2core_tags (p : fcprog) (ncmp : nat) (has_exp : bool) : string :=
        ++ (if main_in_fragment p then " proved-fragment" else "")
        (* inside the hypotheses of C02_fun2core_correct_fragment2 (no codata, no call of main, well-scoped,
           capture guard): for these programs agreement of the two runs is a THEOREM about the model *)
-       ++ (if prog_guard p && nodup_str (map fdname (fcpdefs p)) then " proved-fragment2" else "")
+       ++ (if prog_guard p && nodup_str (map fdname (fcpdefs p)) then " proved-fragment2"
+           else (* which part of the guard fails (histogram of what keeps inputs outside the theorem) *)
+                (if forallb (fun d => frag p (fdbody d)) (fcpdefs p) then "" else " out-frag")
+                ++ (if forallb (fun d => kd p (fdbody d)) (fcpdefs p) then "" else " out-kind")
+                ++ (if forallb (fun d => ws (compile_ctx (fdctx d)) (fdbody d)) (fcpdefs p) then "" else " out-scope")
+                ++ (if forallb (fun d => nocap (fdbody d)) (fcpdefs p) then "" else " out-nocap"))
        ++ " cmp" ++ n_to_string (N.of_nat ncmp)
        ++ " size" ++ n_to_string (N.log2 (size_fcprog p)).
 
